@@ -3,6 +3,7 @@ import JediModel.Lemmas.ValidateSpec
 import JediModel.Model.ApiHelpers
 import JediModel.Lemmas.IterArgs
 import JediModel.Lemmas.IterArgsSpec
+import JediModel.Lemmas.SortKey
 /-! C01 — the position contract of the query API: `validate_line_column`, stated over the
 constants the translator reads from `jedi/api/helpers.py` / `jedi/api/__init__.py`. -/
 namespace JediModel.Props.C01
@@ -358,5 +359,76 @@ example : validate spec (splitLines ['a', 'b', '\r', '\n', 'c', 'd']) (some 1) (
 example : validate spec (splitLines ['a', 'b', '\r', '\n', 'c', 'd']) (some 1) (some 3) = .raised "ValueError" := by decide
 example : validate spec (splitLines ['a', 'b', '\r', '\n', 'c', 'd']) none none = .ok 2 2 := by decide
 example : validate spec [] none none = .raised "ValueError" := by decide
+
+/-! ### the last step of `infer` / `goto` / `help` / `get_references`: `helpers.sorted_definitions`
+
+Results may mix definitions that have a position with definitions that have none (compiled
+modules and their members, namespace packages, keywords: `line == column == None`); for a Script
+without path both kinds have `module_path` None as well, so the comparison of two keys reaches
+the position components. -/
+section SortKey
+open JediModel.SortKey
+
+/-- the key tuple the translator found in `sorted_definitions` is the modelled one:
+`(str(x.module_path or ''), x.line or 0, x.column or 0, x.name, x._name.api_type)`.  Dropping an
+`or <int>` (or any other change of a component) makes this, and so the build, fail. -/
+theorem sorted_definitions_key_shape : SortKey.sourceSpec = some (stdSpecN (some 0) (some 0)) := by decide
+
+/-- with the key of the working tree any two definitions can be compared -- whatever of
+module_path / line / column is None: `sorted` cannot raise on any result list -/
+theorem sorted_definitions_key_total (spec : KeySpec) (h : SortKey.sourceSpec = some spec) (a b : Defn) :
+    comparable spec a b = true := by
+  rw [sorted_definitions_key_shape] at h
+  cases h
+  exact comparable_of_defaults 0 0 a b
+
+/-- the comparison of keys is total on every mixed list iff BOTH missing positions are mapped
+to a number -/
+theorem sort_key_total_iff (dl dc : Option Nat) :
+    (∀ a b : Defn, comparable (stdSpecN dl dc) a b = true) ↔ (dl.isSome = true ∧ dc.isSome = true) := by
+  constructor
+  · intro h
+    cases dl with
+    | none =>
+      have := h (withPos 1 0) noPos
+      rw [not_comparable_without_line_default] at this
+      cases this
+    | some kl =>
+      cases dc with
+      | none =>
+        have := h (withPos kl 1) noPos
+        rw [not_comparable_without_column_default] at this
+        cases this
+      | some kc => exact ⟨rfl, rfl⟩
+  · intro ⟨h1, h2⟩
+    cases dl with
+    | none => cases h1
+    | some kl =>
+      cases dc with
+      | none => cases h2
+      | some kc => exact comparable_of_defaults kl kc
+
+instance : DecidableEq (Except Err Bool)
+  | .ok a, .ok b => if h : a = b then isTrue (by rw [h]) else isFalse (by intro e; cases e; exact h rfl)
+  | .error a, .error b => if h : a = b then isTrue (by rw [h]) else isFalse (by intro e; cases e; exact h rfl)
+  | .ok _, .error _ => isFalse (by intro e; cases e)
+  | .error _, .ok _ => isFalse (by intro e; cases e)
+
+/-- without the defaults, comparing a function of a path-less script (line 2, column 4) with
+the compiled module `sys` (no position) raises: `int < None` -/
+theorem sort_key_some_vs_none_raises :
+    tupleLt (keyOf (stdSpecN none none) (withPos 2 4)) (keyOf (stdSpecN none none) noPos) = .error .typeError := by
+  decide
+
+/-- ... and so does `None < int` -/
+theorem sort_key_none_vs_some_raises :
+    tupleLt (keyOf (stdSpecN none none) noPos) (keyOf (stdSpecN none none) (withPos 2 4)) = .error .typeError := by
+  decide
+
+example : comparable (stdSpecN (some 0) (some 0)) (withPos 2 4) noPos = true := by decide
+example : noPos.line = none ∧ noPos.column = none := ⟨rfl, rfl⟩
+example : ∃ spec, SortKey.sourceSpec = some spec := ⟨_, sorted_definitions_key_shape⟩
+
+end SortKey
 
 end JediModel.Props.C01
